@@ -1,4 +1,5 @@
 pub mod chart;
+pub mod core;
 pub mod lex;
 pub mod listing;
 pub mod subst;
